@@ -308,7 +308,7 @@ func (f *keeperNetlink) Receive(_ bool, p libaudit.NetlinkParser) ([]syscall.Net
 	return msgs, err
 }
 func (f *keeperNetlink) Send(syscall.NetlinkMessage) (uint32, error) { return 0, nil }
-func (f *keeperNetlink) Close() error                                 { return nil }
+func (f *keeperNetlink) Close() error                                { return nil }
 
 // preloadTransport gives the transport scenario a history: many sends, many
 // receives, or many datagrams parsed for a transport that keeps the results.
